@@ -139,6 +139,12 @@ where
             Ok(x) => Ok(Some(x)),
         }
     }
+
+    /// Read-only snapshot of the decoder state (verification hook, coverage accounting only).
+    #[cfg(feature = "verif-hooks")]
+    pub fn verif_state(&self) -> super::decode::VerifDecoderState {
+        self.decoder.verif_state()
+    }
 }
 
 #[cfg(test)]
